@@ -36,7 +36,13 @@ Conf == [
   q_scope     |-> WithTop(U(<<"sset", "specs", "tuple", "dict", "coalesce">>, "scopel", "one", 3, 4, 2, 2, <<1>>), "scope"),
   q_sets      |-> U(<<"set", "fill", "tuple", "dict">>, "setl", "one", 3, 4, 2, 2, <<1, 3>>),
   q_top       |-> WithTop(U(<<"tuple", "dict", "coalesce">>, "small", "one", 2, 3, 2, 2, <<1, 3>>), "some"),
-  q_refscope  |-> U(<<"ref", "refopen", "refshadow", "dict", "tuple">>, "reflx", "one", 4, 5, 2, 2, <<1>>),
+  q_falsy     |-> U(<<"dict", "dict0", "list", "tuple">>, "falsyl", "one", 2, 3, 2, 2, <<8>>),
+  q_falsyc    |-> U(<<"coalesce">>, "falsyl", "falsy", 2, 2, 1, 1, <<8>>),
+  q_falsy2    |-> WithTop(U(<<"dict0", "list", "tuple", "coalesce">>, "falsyl", "one", 2, 2, 1, 1, <<8, 9, 11, 12, 13>>), "falsy"),
+  q_hard      |-> U(<<"list", "tuple", "ntuple", "dict", "invoke">>, "hardl", "one", 2, 3, 2, 2, <<8, 10>>),
+  q_hardc     |-> U(<<"coalesce">>, "hardl", "hostile", 2, 2, 1, 1, <<8>>),
+  q_idx       |-> U(<<"tuple", "coalesce", "edge">>, "idxl", "one", 2, 3, 2, 2, <<4, 7, 15, 2>>),
+  q_refscope  |-> U(<<"ref", "refopen", "refshadow", "dict", "tuple">>, "reflx", "one", 4, 4, 2, 2, <<1>>),
   q_ref       |-> U(<<"ref", "tuple", "coalesce">>, "refl", "one", 4, 5, 2, 2, <<1>>),
   \* ---- thorough tier ----
   t_chains    |-> U(<<"tuple", "pipe">>, "small", "basic", 4, 5, 2, 3, <<1, 3>>),
@@ -44,6 +50,9 @@ Conf == [
   t_scope     |-> WithTop(U(<<"sset", "specs", "tuple", "pipe", "dict", "coalesce", "list">>, "scopel", "one", 3, 5, 2, 2, <<1>>), "scope"),
   t_sets      |-> U(<<"set", "fill", "tuple", "dict", "coalesce", "list">>, "setl", "one", 4, 4, 2, 2, <<1, 3>>),
   t_top       |-> WithTop(U(<<"tuple", "dict", "coalesce", "list">>, "small", "basic", 3, 4, 2, 2, <<1>>), "some"),
+  t_falsy     |-> WithTop(U(<<"dict", "dict0", "list", "tuple", "coalesce">>, "falsyl", "falsy", 2, 3, 2, 2, <<8, 9>>), "falsy"),
+  t_hard      |-> U(<<"coalesce", "list", "tuple", "ntuple", "dict", "invoke">>, "hardl", "hostile", 3, 3, 2, 2, <<8, 10>>),
+  t_hard2     |-> U(<<"list", "tuple", "ntuple", "dict">>, "hardl", "one", 3, 4, 2, 2, <<8, 10>>),
   t_refscope  |-> U(<<"ref", "refopen", "refshadow", "dict", "tuple">>, "reflx", "one", 5, 6, 2, 2, <<1>>),
   t_ref       |-> U(<<"ref", "tuple", "coalesce", "list">>, "refl", "basic", 4, 5, 2, 2, <<1, 2>>),
   t_nest      |-> U(Containers, "small", "basic", 3, 4, 2, 3, <<1, 2, 3>>),
@@ -62,10 +71,12 @@ Conf == [
   m_top       |-> WithTop(U(<<"tuple">>, "tiny", "one", 2, 2, 2, 2, <<1>>), "some"),
   m_set       |-> U(<<"set", "fill">>, "setl", "one", 3, 3, 2, 2, <<1>>),
   m_scope     |-> WithTop(U(<<"sset", "tuple">>, "scopel", "one", 3, 4, 2, 3, <<1>>), "scope"),
+  m_gen       |-> U(<<"list", "tuple">>, "hardl", "one", 3, 3, 2, 2, <<8, 10>>),
+  m_sent      |-> U(<<"list", "dict", "tuple">>, "hardl", "one", 2, 3, 2, 2, <<8>>),
   m_ref       |-> U(<<"ref", "refopen", "refshadow", "dict", "tuple">>, "reflx", "one", 4, 4, 2, 2, <<1>>),
   probe       |-> U(<<>>, "tiny", "basic", 1, 0, 0, 0, <<1>>) ]
 
-AllKinds == {"refopen", "refshadow", "inspect", "set", "sset", "specs",
+AllKinds == {"dict0", "edge", "ntuple", "refopen", "refshadow", "inspect", "set", "sset", "specs",
              "dict", "odict", "dictk", "list", "tuple", "pipe", "spec", "coalesce", "call", "invoke",
              "ref", "fill", "auto"}
 
@@ -79,8 +90,21 @@ TargetHeap == <<
   Cell("list", <<>>),                                                                        \* 4
   Cell("obj",  << <<S("a"), VInt(2)>>, <<S("b"), VRef(2)>> >>),                               \* 5
   Cell("list", <<VRef(3), VRef(1)>>),                                                        \* 6
-  Cell("tuple", <<VInt(1), VNone>>) >>                                                       \* 7
-RootTab == <<VRef(1), VRef(6), VInt(1), VRef(2), VRef(5), VNone, VRef(7)>>
+  Cell("tuple", <<VInt(1), VNone>>),                                                         \* 7
+  \* ---- hardening: falsy-but-meaningful values, equal-but-distinct and hostile-== objects, an
+  \*      OrderedDict, a one-shot iterator
+  Cell("dict", << <<S("a"), VInt(0)>>, <<S("b"), VRef(4)>>, <<S("k"), S("")>>, <<S("n"), VRef(9)>>,
+                  <<S("z"), VBool(FALSE)>>, <<S("e"), VRef(10)>>, <<S("h"), VRef(11)>>, <<S("j"), VRef(12)>>,
+                  <<S("o"), VRef(13)>>, <<S("g"), VRef(14)>> >>),                             \* 8
+  Cell("dict", <<>>),                                                                        \* 9
+  Cell("list", <<>>),                                                                        \* 10 (== cell 4, another object)
+  Cell("eqall", <<>>),                                                                       \* 11 equal to everything
+  Cell("eqraise", <<>>),                                                                     \* 12 == raises TypeError on foreigners
+  Cell("odict", << <<S("x"), VInt(0)>>, <<S("y"), S("")>> >>),                               \* 13
+  [cls |-> "gen", items |-> <<VInt(-1), VInt(0), VInt(1)>>, pulled |-> 0],                   \* 14
+  Cell("list", <<VInt(0), S(""), VNone, VBool(FALSE), VRef(4), VRef(9), VRef(11)>>) >>       \* 15
+RootTab == <<VRef(1), VRef(6), VInt(1), VRef(2), VRef(5), VNone, VRef(7),
+             VRef(8), VRef(15), VRef(14), VInt(0), VInt(-1), S(""), VRef(13), VRef(4)>>      \* 8 .. 15
 
 \* ---- spec constructors -------------------------------------------------------------------
 P(text, segs) == [op |-> "path", text |-> text, segs |-> segs]
@@ -117,8 +141,17 @@ ScopeLeaves == {SG("v", "."), SG("v", "["), SG("w", "."), [op |-> "aset", name |
                 P("a", <<"a">>), F("inc"), F("ret_SKIP")}
 SetLeaves == {TT(<<>>), TT(<<Step("[", S("a"))>>), P("a", <<"a">>), F("inc"), F("ret_SKIP"), V(VNone)}
 RefScopeLeaves == {P("n", <<"n">>), P("a", <<"a">>), F("inc")}
+FalsyLeaves == {P("a", <<"a">>), P("k", <<"k">>), P("z", <<"z">>), P("n", <<"n">>), P("b", <<"b">>),
+                F("ident"), F("size"), F("inc"), F("ret_None"), F("ret_SKIP"),
+                V(VInt(0)), V(S("")), V(VBool(FALSE))}
+HardLeaves == {P("h", <<"h">>), P("j", <<"j">>), P("g", <<"g">>), P("o", <<"o">>), P("e", <<"e">>),
+               TT(<<>>), F("ident"), F("inc"), F("ret_STOP")}
+IdxLeaves == {P("0", <<"0">>), P("1", <<"1">>), P("2", <<"2">>), P("-1", <<"-1">>), P("-2", <<"-2">>), P("-3", <<"-3">>),
+              TT(<<Step("[", VInt(0))>>), TT(<<Step("[", VInt(1))>>), TT(<<Step("[", VInt(2))>>),
+              TT(<<Step("[", VInt(-1))>>), TT(<<Step("[", VInt(-3))>>)}
 RefLeaves == {P("n", <<"n">>), P("a", <<"a">>), F("inc")}
-LeavesOf(c) == (CASE c.leaf = "tiny" -> TinyLeaves [] c.leaf = "refl" -> RefLeaves [] c.leaf = "reflx" -> RefScopeLeaves [] c.leaf = "scopel" -> ScopeLeaves [] c.leaf = "setl" -> SetLeaves [] c.leaf = "nonel" -> NoneLeaves [] c.leaf = "argtiny" -> ArgTinyLeaves [] c.leaf = "small" -> SmallLeaves [] c.leaf = "full" -> FullLeaves
+LeavesOf(c) == (CASE c.leaf = "tiny" -> TinyLeaves [] c.leaf = "refl" -> RefLeaves [] c.leaf = "falsyl" -> FalsyLeaves [] c.leaf = "hardl" -> HardLeaves
+                  [] c.leaf = "idxl" -> IdxLeaves [] c.leaf = "reflx" -> RefScopeLeaves [] c.leaf = "scopel" -> ScopeLeaves [] c.leaf = "setl" -> SetLeaves [] c.leaf = "nonel" -> NoneLeaves [] c.leaf = "argtiny" -> ArgTinyLeaves [] c.leaf = "small" -> SmallLeaves [] c.leaf = "full" -> FullLeaves
                   [] c.leaf = "argsmall" -> ArgSmallLeaves [] OTHER -> ArgLeaves)
                \cup (IF \E i \in 1..Len(c.kinds) : c.kinds[i] = "ref" THEN {RefUse} ELSE {})
 
@@ -142,12 +175,23 @@ FullOpts == {Opt(d, sk, ex) :
                sk \in {SkNone, SkVal(VInt(1)), SkVal(VBool(TRUE)), SkVal(VNone), SkTup(<<VInt(0), VNone>>), SkTup(<<>>),
                        SkPred("is_none"), SkPred("is_int"), SkPred("raise_GlomError"), SkPred("raise_ValueError")},
                ex \in {GE, <<"KeyError">>, <<"ValueError", "TypeError">>, <<"Exception">>, <<"PathAccessError">>, <<>>}}
+\* falsy defaults (must be returned as they are), falsy / empty-container skip values
+ELit(op) == IF op = "list" THEN [op |-> "list", kids |-> <<>>] ELSE Dict(FALSE, <<>>, <<>>)
+SkE(k) == [k |-> k]                                  \* skip-only values: an empty list / dict literal
+FalsyOpts == {Opt(d, sk, GE) :
+                d \in {DNone, DArg(K(VInt(0))), DArg(K(S(""))), DArg(K(VBool(FALSE))), DArg(ELit("list")), DArg(ELit("dict")), DFac("mk0")},
+                sk \in {SkNone, SkVal(VInt(0)), SkVal(S("")), SkVal(VBool(FALSE)), SkVal(VNone), SkVal(SkE("elist")),
+                        SkTup(<<S(""), VNone>>), SkTup(<<SkE("elist"), SkE("edict"), VNone>>)}}
+HostileOpts == {Opt(d, sk, ex) :
+                  d \in {DNone, DArg(K(VNone))},
+                  sk \in {SkNone, SkVal(VInt(0)), SkVal(SKIP), SkTup(<<VInt(0), VNone>>), SkTup(<<SkE("elist")>>)},
+                  ex \in {GE, <<"TypeError">>}}
 MidOpts == {Opt(d, sk, ex) :
                d \in {DNone, DArg(K(SKIP)), DArg(TT(<<Step("[", S("a"))>>)), DFac("echo")},
                sk \in {SkNone, SkVal(VBool(TRUE)), SkTup(<<VInt(0), VNone>>), SkPred("is_none"), SkPred("raise_GlomError")},
                ex \in {GE, <<"KeyError">>, <<"ValueError", "TypeError">>, <<>>}}
 OneOpt == {Opt(DArg(K(VNone)), SkNone, GE)}
-CoalOptsOf(c) == CASE c.coal = "one" -> OneOpt [] c.coal = "full" -> FullOpts [] c.coal = "mid" -> MidOpts [] OTHER -> BasicOpts
+CoalOptsOf(c) == CASE c.coal = "one" -> OneOpt [] c.coal = "falsy" -> FalsyOpts [] c.coal = "hostile" -> HostileOpts [] c.coal = "full" -> FullOpts [] c.coal = "mid" -> MidOpts [] OTHER -> BasicOpts
 
 \* Inspect(x, recursive=, echo=, breakpoint=, post_mortem=)
 Insp(kid, rec, echo, bp, pm) == [op |-> "inspect", kids |-> <<kid>>, rec |-> rec, echo |-> echo, bp |-> bp, pm |-> pm]
@@ -160,6 +204,7 @@ TopOptsOf(c) ==
   CASE c.top = "some"  -> {NoOpts, TOpt(<<VInt(7)>>, <<>>, <<>>), TOpt(<<>>, << <<"KeyError">> >>, <<>>),
                            TOpt(<<VInt(7)>>, << <<"KeyError">> >>, <<>>), TOpt(<<SKIP>>, << <<"ValueError", "TypeError">> >>, <<>>),
                            TOpt(<<VNone>>, << <<>> >>, <<>>)}
+    [] c.top = "falsy" -> {NoOpts, TOpt(<<VInt(0)>>, <<>>, <<>>), TOpt(<<S("")>>, <<>>, <<>>), TOpt(<<VBool(FALSE)>>, << <<"Exception">> >>, <<>>)}
     [] c.top = "scope" -> {NoOpts, TOpt(<<>>, <<>>, << <<"v", VInt(9)>> >>)}
     [] OTHER           -> {NoOpts}
 
@@ -257,6 +302,16 @@ Compose ==
           \/ /\ KindOn("dictk") /\ n >= 1
              /\ \E ks \in KeySpecs : \E pos \in {1, n} :
                   Made(n, Dict(FALSE, [i \in 1..n |-> IF i = pos THEN KeyS(ks) ELSE Lit(LitKeyNames[i])], kids), FALSE)
+          \/ /\ KindOn("dict0") /\ n >= 1        \* falsy literal keys; a T key that evaluates to a falsy value
+             /\ \/ Made(n, Dict(FALSE, [i \in 1..n |-> Lit(<<VInt(0), S(""), VNone>>[i])], kids), FALSE)
+                \/ \E ks \in {TT(<<Step("[", S("a"))>>), TT(<<Step("[", S("z"))>>), TT(<<Step("[", S("k"))>>)} :
+                     Made(n, Dict(FALSE, [i \in 1..n |-> IF i = 1 THEN KeyS(ks) ELSE Lit(S("q"))], kids), FALSE)
+          \/ /\ KindOn("edge")                     \* boundary arities: {} , [] , [a, b] , Pipe() , Coalesce()
+             /\ \/ n = 0 /\ Made(n, Dict(FALSE, <<>>, <<>>), FALSE)
+                \/ n \in {0, 2} /\ Made(n, [op |-> "list", kids |-> kids], FALSE)
+                \/ n = 0 /\ Made(n, [op |-> "pipe", kids |-> <<>>], FALSE)
+                \/ n = 0 /\ \E o \in CoalOpts : Made(n, [op |-> "coalesce", kids |-> <<>>, dflt |-> o.dflt, skip |-> o.skip, skipexc |-> o.skipexc], FALSE)
+          \/ KindOn("ntuple") /\ n = 2 /\ ChainOk(kids) /\ Made(n, [op |-> "ntuple", kids |-> kids], FALSE)
           \/ KindOn("list") /\ n = 1 /\ Made(n, [op |-> "list", kids |-> kids], FALSE)
           \/ KindOn("tuple") /\ ChainOk(kids) /\ Made(n, Tup(kids), FALSE)
           \/ KindOn("pipe") /\ n >= 1 /\ ChainOk(kids) /\ Made(n, [op |-> "pipe", kids |-> kids], FALSE)
